@@ -40,14 +40,19 @@ def formatNameC10 : C10.Format → String
 
 /-- `{"op":"ingest","method":<shipped method name>,"mokapot":bool,"maps":[dmap…],"files":[[row…]…]}`
     → `{"pil":[[peptide,[num,den],[proteins…]]…],"format":…,"remap":bool,"razor":bool}` (dict order) for
-    every shipped method, razor methods included (mode from the description `scoreType [+ " razor"]`);
+    every shipped method, razor methods included (mode from the description `scoreType [+ " razor"]`; an optional
+    field `"description"` supplies it for a method file that is not in the generated table);
     a PEP cell the parser cannot convert → `{"err":"bad_score_cell"}` -/
 def handleIngest (j : Json) : R Json := do
   let name ← jstr (← jget j "method")
   let mokapot ← match jgetOpt j "mokapot" with
     | some b => jbool b
     | none => pure false
-  match C10.descriptionOfMethod name with
+  -- a method file that is not shipped: the harness sends the score description (`scoreType [+ " razor"]`) itself
+  let desc ← match jgetOpt j "description" with
+    | some d => do pure (some (← jstr d))
+    | none => pure (C10.descriptionOfMethod name)
+  match desc with
   | none => .error s!"unknown method {name}"
   | some d =>
     let mode := C10.modeOfScoreType d mokapot
